@@ -434,6 +434,11 @@ impl Meta {
             error!("META value contained a line feed");
             return Err(Box::new(img::Error::MetadataMismatch));
         }
+        // records are read back line by line: a carriage return in front of the line feed would be taken as part of the line end
+        if key.ends_with("\r") || val.ends_with("\r") {
+            error!("META key or value ended with a carriage return");
+            return Err(Box::new(img::Error::MetadataMismatch));
+        }
         match self.get_meta_item(key) {
             Some((i,_)) => {
                 self.recs[i] = (key.to_string(),val.to_string());
